@@ -33,6 +33,11 @@ func (d *deferredFileNode) resolve() error {
 	}
 	target, err := d.lsys.Load(ipld.LinkContext{Ctx: d.ctx}, d.root, protoFor(d.root))
 	if err != nil {
+		if err == io.EOF {
+			// a block that cannot be loaded is not the end of the file: readers
+			// (io.MultiReader, io.ReadAll) take a bare io.EOF for exactly that
+			err = io.ErrUnexpectedEOF
+		}
 		return err
 	}
 
